@@ -267,6 +267,215 @@ def generate(old=None):
     return '\n'.join(out) + '\n', {n: 'regenerated' for n, _ in defs}, {}
 
 
+def regenerate():
+    path = os.path.join(LEAN, OUT)
+    try:
+        old = open(path).read()
+    except FileNotFoundError:
+        old = None
+    text, info, lost = generate(old=old)
+    changed = write_if_changed(path, text)
+    h = hashlib.sha256(text.encode())
+    for f in (SRC, BLOCK_SRC):
+        h.update(open(os.path.join(REPO, f), 'rb').read())
+    for f in (__file__, pydyn.__file__, pyobj.__file__, pybytes.__file__, pybytes.pyarith.__file__, os.path.join(LEAN, 'TonVerif/PyTl.lean'),
+              os.path.join(LEAN, 'TonVerif/Generated/TlTable.lean')):
+        h.update(open(f, 'rb').read())
+    stamp = os.path.join(LEAN, '.lake', 'srcval_TlEngine.stamp')
+    try:
+        cached = open(stamp).read() == h.hexdigest()
+    except OSError:
+        cached = False
+    n = None
+    if not cached and not lost:
+        bad, n = validate()
+        if bad:                      # the translation does not compute what Python computes: do not keep it
+            keep = committed_text() or old
+            if keep is None:
+                raise Untranslatable(bad)
+            changed = write_if_changed(path, keep) or changed
+            lost = {'TlEngine': bad}
+        else:
+            try:
+                with open(stamp, 'w') as f:
+                    f.write(h.hexdigest())
+            except OSError:
+                pass
+    if lost:
+        raise Untranslatable(f'kept the previous translation: {lost} (file changed: {changed})')
+    return changed, {'definitions': sorted(info), 'validated': 'cached' if cached else f'Lean evaluation = the library on {n} calls'}
+
+
+# ---------------------------------------------------------------------------- evaluation by Lean, validation, search hook
+
+def tok_any(W, x):
+    """an arbitrary Python value (not type-directed) as a driver token; None = not representable"""
+    if isinstance(x, bool):
+        return 'T' if x else 'F'
+    if isinstance(x, int):
+        return f'i{x}'
+    if isinstance(x, bytes):
+        return 'b' + x.hex()
+    if isinstance(x, str):
+        if len(x) % 2 == 0 and re.fullmatch(r'[0-9a-f]*', x):
+            return 'h' + x
+        return 's' + x.encode().hex()
+    if isinstance(x, list):
+        ts = [tok_any(W, y) for y in x]
+        return None if None in ts else 'l(' + ','.join(ts) + ')'
+    if isinstance(x, dict):
+        parts = []
+        for k, v in x.items():
+            if k == '@type':
+                continue
+            t = tok_any(W, v)
+            if t is None or k not in W.I.ids:
+                return None
+            parts.append(f'{W.I.ids[k]}={t}')
+        if '@type' in x and x['@type'] not in W.I.ids:
+            return None
+        tag = W.I.ids[x['@type']] if '@type' in x else '-'
+        return f'o{tag}(' + ','.join(parts) + ')'
+    return None
+
+
+LEAN_EVAL = """import TonVerif.Drv.Tl
+import TonVerif.Generated.TlEngine
+open TonVerif TonVerif.Spec.Tl TonVerif.Model.Tl TonVerif.Drv TonVerif.Drv.Tl TonVerif.Generated.TlEngine
+def gfuel : Nat := 200
+def showB : Option Bytes → String
+  | none => "err"
+  | some b => "ok" ++ hexOfBytes b
+def tysOf (ci ai : Nat) : Option Py.Tl.TyS := (table.ctors[ci]?).bind fun c => (c.args[ai]?).map fun a => Py.Tl.TyS.strip (Py.Tl.TyS.ofArg a)
+def same (a b : Option Bytes) : String := if a == b then "same" else "DIFF"
+def run1 (w : String) : String :=
+  match w.splitOn ":" with
+  | ["ser", ci, v] => (match ci.toNat?, valArg v with
+      | some i, some val => (match table.ctors[i]? with
+        | some c => showB (serializeF table gfuel (some c) val true)
+        | none => "bad")
+      | _, _ => "bad")
+  | ["fld", ci, ai, v] => (match ci.toNat?, ai.toNat?, valArg v with
+      | some i, some j, some val => (match tysOf i j with
+        | some t => showB (serializeFieldAt table (serializeF table gfuel) t val)
+        | none => "bad")
+      | _, _, _ => "bad")
+  | ["dser", ci, v] => (match ci.toNat?, valArg v with
+      | some i, some val => (match table.ctors[i]? with
+        | some c => same (serializeF table gfuel (some c) val true) ((objFields? c val).bind fun fs => serObj table gfuel c fs true)
+        | none => "bad")
+      | _, _ => "bad")
+  | ["dfld", ci, ai, v] => (match ci.toNat?, ai.toNat?, valArg v with
+      | some i, some j, some val => (match table.ctors[i]?.bind (fun c => c.args[j]?) with
+        | some a => same (serializeFieldAt table (serializeF table gfuel) ⟨none, a.vec, a.ty⟩ val) (serArg table (serObj table gfuel) a val)
+        | none => "bad")
+      | _, _, _ => "bad")
+  | _ => "bad"
+"""
+
+
+def lean_eval(words):
+    """one answer per request word (`ser:<ctor>:<value>`, `fld:<ctor>:<arg>:<value>`: the regenerated engine; `dser` / `dfld`: regenerated
+    engine vs hand model -> same | DIFF)"""
+    if not words:
+        return []
+    tmp = os.path.join(LEAN, f'.srctl_{os.getpid()}.lean')
+    inp = os.path.join(LEAN, f'.srctl_{os.getpid()}.txt')
+    with open(inp, 'w') as f:
+        f.write('\n'.join(words) + '\n')
+    with open(tmp, 'w') as f:
+        f.write(LEAN_EVAL + f'#eval (do let s ← IO.FS.readFile "{inp}"; for w in s.splitOn "\\n" do if w ≠ "" then IO.println ("VAL " ++ run1 w) : IO Unit)\n')
+    try:
+        _lake_build(['TonVerif.Generated.TlEngine', 'TonVerif.Drv.Tl'])
+        p = subprocess.run(['lake', 'env', 'lean', tmp], cwd=LEAN, capture_output=True, text=True, timeout=900)
+    finally:
+        for x in (tmp, inp):
+            try:
+                os.unlink(x)
+            except OSError:
+                pass
+    got = re.findall(r'^VAL (.*)$', p.stdout, re.M)
+    if len(got) != len(words) or 'bad' in got:
+        raise RuntimeError('lean evaluation failed: ' + (p.stdout + p.stderr)[-400:])
+    return got
+
+
+ODD_VALUES = [0, 1, -1, 255, 2 ** 31 - 1, 2 ** 31, -2 ** 31, -2 ** 31 - 1, 2 ** 32 - 1, 2 ** 32, 2 ** 63 - 1, 2 ** 63, -2 ** 63, 2 ** 255, True, False,
+              b'', b'\x01', b'\x01\x02\x03', bytes(range(4)), bytes(range(7)), bytes(range(16)), bytes(range(32)), bytes(range(40)), bytes(252), bytes(253),
+              bytes(254), bytes(255), bytes(256), bytes(257), bytes(1000), '', 'abc', 'xyz ü', 'ab' * 16, 'cd' * 32, 'abcd', [], [1, 2], [b'\x01', b''], ['a', 'b'],
+              [True], [[1]], {}, {'workchain': 1}, {'@type': 'liteServer.getTime'}, {'@type': 'tonNode.blockIdExt', 'workchain': -1, 'shard': 5, 'seqno': 7,
+              'root_hash': 'aa' * 32, 'file_hash': 'bb' * 32}, {'@type': 'no.such.ctor'}, {'@type': 'liteServer.getTime', 'seqno': 5}]
+
+
+def validation_cases(W=None):
+    """-> (W, [(word, python thunk)])"""
+    import copy
+    import random
+    from ..gen import tlvals as V
+    W = W or V.World()
+    rng = random.Random(20240914)
+    out = []
+    cov = [c for c in W.ctors if W.covered(c)]
+    for k, c in enumerate(cov):
+        for r in range(2 if k % 3 else 3):
+            v = V.gen_obj(W, rng, c, 0, {'depth': 2, 'big': False, 'lens': [0, 1, 3, 4, 253, 254, 255, 300]})
+            out.append((f'ser:{c["idx"]}:{V.tok_obj(W, c, v)}', lambda c=c, v=v: W.lib.serialize(W.lib.list[c['idx']], copy.deepcopy(v))))
+    seen = set()
+    for c in W.ctors:
+        for j, a in enumerate(c['args']):
+            t = a['type']
+            st = t.split('?')[1] if ('mode' in t or 'flags' in t) else t
+            key = (a['vec'], a['ety'] if a['ety'][0] == 'base' else a['ety'][0])
+            if key in seen and not (len(seen) < 40 and rng.random() < 0.02):
+                continue
+            if a['ety'] == ('unsup',) or a['field'].startswith('{'):
+                continue
+            seen.add(key)
+            for x in ODD_VALUES:
+                tok = tok_any(W, x)
+                if tok is None or (a['vec'] and isinstance(x, (bytes, str, dict))):
+                    continue          # a vector field's value is a list (other iterables are outside the modelled domain: PyTl.lean listLen?)
+                out.append((f'fld:{c["idx"]}:{j}:{tok}', lambda st=st, x=x: W.lib.serialize_field(st, copy.deepcopy(x))))
+    return W, out
+
+
+def validate():
+    """Differential validation of the TRANSLATOR: the regenerated engine, evaluated by Lean over the regenerated table, must give what the
+    library gives (bytes, or raise) on type-directed values of every covered constructor and on ill-typed values of every kind of field.
+    -> (None | reason, number of calls)"""
+    try:
+        W, cases = validation_cases()
+        got = lean_eval([w for w, _ in cases])
+    except Exception as e:
+        return f'validation: the regenerated definition could not be evaluated: {type(e).__name__}: {e}', 0
+    for (w, thunk), g in zip(cases, got):
+        try:
+            pv = 'ok' + thunk().hex()
+        except RecursionError:
+            continue
+        except Exception:
+            pv = 'err'
+        if pv != g:
+            return f'validation: on {w[:300]} Lean computes "{g[:120]}", the library computes "{pv[:120]}"', len(cases)
+    return None, len(cases)
+
+
+def diff_values(ctx, W, pairs):
+    """For harness search mode: pairs = [(constructor, value)] -> those on which the regenerated serialiser and the hand model differ
+    (evaluated by Lean; needs only Generated/TlEngine.lean and the driver modules, not the proofs).  Never raises."""
+    from ..gen import tlvals as V
+    try:
+        words = [f'dser:{c["idx"]}:{V.tok_obj(W, c, v)}' for c, v in pairs]
+        got = lean_eval(words)
+    except Exception as e:
+        ctx.notes.append(f'source-diff search (TlEngine) failed: {type(e).__name__}: {str(e)[:200]}')
+        return []
+    found = [p for p, g in zip(pairs, got) if g == 'DIFF']
+    ctx.notes.append(f'source-diff search: regenerated TL serialiser vs hand model on {len(pairs)} values: ' +
+                     (f'{len(found)} differ, e.g. ' + '; '.join(f'{c["name"]} {str(v)[:80]}' for c, v in found[:3]) if found else 'no differing value'))
+    return found
+
+
 if __name__ == '__main__':
     text, info, lost = generate(old='')
     print(info, lost)
